@@ -85,6 +85,7 @@ func Run(o *hx.Opts, w *lineio.Writer) error {
 	}
 	// sequential scripts on the same model: receive side in detail, boundary and excluded points
 	jobs = append(jobs, ExcludedScripts(mp)...)
+	jobs = append(jobs, IsolationScripts(mp)...)
 	for i := 0; i < o.N(40, 400); i++ {
 		jobs = append(jobs, RandomScript(r, mp, i))
 	}
